@@ -170,6 +170,14 @@ def run(chk):
             vals += [mmv.rand(mmlib.ref(sn), rng, 0, rng.choice([1, 2, 3])) for _ in range(1 if chk.tier == "quick" else 8)]
             for v in vals:
                 cases.append({"target": sn, "kind": "struct", "input": v})
+        # the per-site stream too (every union alternative, open-enum custom values, single-optional variants) on the constructor path
+        seen_in = {(c["target"], json.dumps(c["input"], sort_keys=True)) for c in cases}
+        for c in CP.site_stream(mmv, pkg, single_optional=(chk.tier != "quick")):
+            if c["kind"] == "site" and c["target"] in mmv.S:
+                k = (c["target"], json.dumps(c["input"], sort_keys=True))
+                if k not in seen_in:
+                    seen_in.add(k)
+                    cases.append({"target": c["target"], "kind": "struct", "input": c["input"]})
         for kind, r in mmv.messages():
             names = pkg["methods"].get(r["method"])
             if not names:
